@@ -77,6 +77,15 @@ def faults(r, nl):
     add("expr-syntax-multiline", "${" + nl.join(lines) + "}", "Syntax", off=pl - 1, py=True)
     add("control-syntax", "% if x ===:" + nl + "t" + nl + "% endif" + nl, "Syntax", where="linestart", col="control", py=True)
     add("elif-syntax", "% if x:" + nl + "t" + nl + "% elif y ===:" + nl + "u" + nl + "% endif" + nl, "Syntax", off=2, where="linestart", col="control-elif", py=True)
+    # control lines continued over several lines with a backslash: the fault is on one particular physical line
+    bs = "\\"
+    add("control-continued", "% if a and " + bs + nl + "    c +* 1:" + nl + "t" + nl + "% endif" + nl, "Syntax", off=1, where="linestart", col="unchecked", py=True)
+    add("elif-continued-second-line", "% if a:" + nl + "t" + nl + "% elif b and " + bs + nl + "    c +* 1:" + nl + "u" + nl + "% endif" + nl, "Syntax", off=3, where="linestart", col="unchecked", py=True)
+    add("elif-continued-first-line", "% if a:" + nl + "t" + nl + "% elif b +* 1 and " + bs + nl + "    c:" + nl + "u" + nl + "% endif" + nl, "Syntax", off=2, where="linestart", col="unchecked", py=True)
+    add("except-continued-third-line", "% try:" + nl + "t" + nl + "% except (KeyError, " + bs + nl + "    ValueError, " + bs + nl + "    TypeError e):" + nl + "u" + nl + "% endtry" + nl,
+        "Syntax", off=4, where="linestart", col="unchecked", py=True)
+    add("for-continued", "% for i in (1, " + bs + nl + "   2 +* 3):" + nl + "x" + nl + "% endfor" + nl, "Syntax", off=1, where="linestart", col="unchecked", py=True)
+    add("else-continued", "% if a:" + nl + "t" + nl + "% else " + bs + nl + "  +:" + nl + "u" + nl + "% endif" + nl, "Syntax", off=3, where="linestart", col="unchecked", py=True)
     for name, opener in (("code-block-line", "<%"), ("module-block-line", "<%!")):
         n = r.randint(2, 5)
         bad = r.randrange(n)
